@@ -152,7 +152,7 @@ impl Module for M {
         // random long lines
         let n = if tier == Tier::Quick { 1500 } else { 100_000 };
         for _ in 0..n {
-            let sc = *rng.pick(&[40i64, 40, 300, 300, 2000, 30000]);
+            let sc = *rng.pick(&[40i64, 40, 40, 300, 300, 300, 300, 2000, 2000, 2000, 2000, 30000]);
             let (x0, y0) = (rng.range(-sc, sc), rng.range(-sc, sc));
             // now and then an exactly axis-parallel / diagonal / nearly diagonal long line
             let (x1, y1) = match rng.below(12) {
